@@ -22,7 +22,9 @@ MANIFEST = dict(
          'the bounded models is executed on a real VPK in a temporary directory (one covering walk per configuration; '
          'states the code cannot reach by itself are put on disk by the harness\'s own encoder); after every call the '
          'in-memory tree, the footer, the numbered archives and the _dir file (decoded by an independent 40-line decoder '
-         'and a byte matcher) must be exactly the step VpkOps takes, and filenames / read / verify / the three name '
+         'and a byte matcher) are judged as a READER sees them - exactly the right names, every file reads back the bytes '
+         'last written and its CRC, the written region lies inside its archive and cuts into no other file, the documented '
+         'dir_data_limit / arch_index rules; offsets, block order and dead space are the writer\'s choice - and filenames / read / verify / the three name '
          'spellings / a fresh read-only VPK must answer what the specification reads out of that state. TLC-simulated '
          'behaviours with three names and contents up to 300000 bytes, seeded random histories in all modes, and '
          '_get_file_parts against a TLA+ definition of posix split/normpath for all short strings are validated the same way.',
